@@ -128,8 +128,8 @@ def judge_processor(paths: List[Path], site: Site, kind: str, j: Judged, loop_ok
             else:
                 if prefix or sets:
                     j.v("prefix-guard", f"the prefix / skip is not conditioned on `extensible` (path under {p.guard_text()})", witness="a non-extensible message/array gets (or an extensible one loses) the 16-bit prefix")
-            if not loops:
-                j.u("children not recognised on the non-extensible path")
+            if not loops and not (site.lang == "c" and kind == "array"):
+                j.u("children not recognised on the non-extensible path")  # C arrays: element handling is EC2's / CA2's business
             continue
         # extensible
         if not prefix:
@@ -424,6 +424,17 @@ def check_children(paths: List[Path], site: Site, kind: str, j: Judged) -> None:
                     proc = [c for c in _calls(b) if c.name == "BpEndecodeMessageField"]
                     if len(proc) != 1:
                         j.v("children", "fields are not processed once each through BpEndecodeMessageField", construct=str(_calls(b)), witness="a message with two fields: one is processed twice / skipped")
+                        return
+                    # a pointer cursor: starts at field_descriptors, advances by one per iteration
+                    arg = proc[0].args[0]
+                    aa = single_atom(arg)
+                    if aa is not None and aa[0] == "var" and aa[1].endswith(lp.op):
+                        cur_name = aa[1][: -len(lp.op)]
+                        init = lp.kw.get(cur_name)
+                        end = b.env.get(cur_name)
+                        if init is not None and show(init) == "descriptor.field_descriptors" and end is not None and end - arg == C(1):
+                            continue
+                        j.v("children", f"the field cursor `{cur_name}` does not start at field_descriptors and advance by one descriptor per iteration", construct=f"start {show(init) if init is not None else None}, step {show(end - arg) if end is not None else None}", witness="a message with two fields: one is processed twice / skipped")
                         return
                     if proc[0].args[0] != want and proc[0].args[0] != V("descriptor.field_descriptors") + V(lv):
                         j.v("children", f"field k is processed with descriptor `{show(proc[0].args[0])}`, not field_descriptors[k]", construct=show(proc[0].args[0]), witness="a message with two fields: one is processed twice / skipped")
